@@ -116,6 +116,8 @@ class SphinxRenderer(DocutilsRenderer):
         destination = self.md.normalizeLinkText(cast(str, token.attrGet("href") or ""))
         if destination.startswith("path:"):
             destination = destination[5:]
+        # a percent-encoded NUL is not a valid path character (CommonMark: U+0000 -> U+FFFD)
+        destination = destination.replace("\x00", "\ufffd")
         destination = self._handle_relative_docs(destination)
         explicit = (token.info != "auto") and (len(token.children or []) > 0)
         wrap_node = addnodes.download_reference(
